@@ -36,3 +36,31 @@ Theorem C13_blocks_are_the_jump_target_partition :
                             nth_error (block_starts blocks (map fst ois)) (Z.to_nat k) = Some t)).
 Proof. intros C. exact (@bytes_to_blocks_partition C). Qed.
 Print Assumptions C13_blocks_are_the_jump_target_partition.
+
+(* Tie of the decoding loop to the current source: the body of `for opcode, arg, n_args, offset, next_offset in
+   _parse_bytes(b)` is checked verbatim where it is fixed (the call of to_arg, the Instruction built with the two pops out of
+   the line mapping, the append, the removal of the entries of the EXTENDED_ARG prefixes) and translated where it computes
+   (Gen/SrcLines.v, DecodeStep): the target recorded for the partition is the target of every decoded Jump and of nothing
+   else, and the size override is kept for jumps that really had prefixes - as in the model's decode_instrs *)
+From PCD Require Base.PyImp Gen.SrcLines Proofs.SrcDecodeTie.
+Theorem C13_recorded_targets_and_size_overrides_are_the_source :
+  forall {C} (parg : arg_ C) n_args a offset next_offset s,
+  PCD.Gen.SrcLines.DecodeStep.size_and_targets (SrcDecodeTie.arg_is_jump parg) (SrcDecodeTie.arg_target parg)
+    n_args a offset next_offset s
+  = OK (PCD.Gen.SrcLines.DecodeStep.mk_st (SrcDecodeTie.model_nov parg n_args)
+          (match parg with AJump t _ => t :: PCD.Gen.SrcLines.DecodeStep.v_targets_set s
+                         | _ => PCD.Gen.SrcLines.DecodeStep.v_targets_set s end)).
+Proof. intros. apply SrcDecodeTie.decode_step_tie. Qed.
+Print Assumptions C13_recorded_targets_and_size_overrides_are_the_source.
+
+(* and the block-building loop itself: `for offset, instruction in offsets_and_instruction` - a new block when the offset
+   is a target, the jump operand rewritten to targets.index(...), append to the current block (NameError when none exists
+   yet) - re-translated on every run (Gen/SrcLines.v, SplitBlocks: the finished blocks and the list `block` is bound to),
+   run on the targets the decoding loop recorded (offset 0 and the target of every jump, sorted), IS the model's split_blocks.
+   C13_blocks_are_the_jump_target_partition is a theorem about split_blocks; with this it is a theorem about that loop. *)
+From PCD Require Proofs.SrcSplitTie.
+Theorem C13_block_building_loop_is_the_source : forall {C} (ois : list (Z * instr_ C)),
+  PCD.Gen.SrcLines.SplitBlocks.run (0 :: jump_targets ois) ois
+  = split_blocks (sorted_set (0 :: jump_targets ois)) ois [] false.
+Proof. intros. apply SrcSplitTie.split_blocks_run_tie. Qed.
+Print Assumptions C13_block_building_loop_is_the_source.
